@@ -35,13 +35,20 @@ Inductive tact :=
 | XStop (out : list stok)
 | XNew (wid : nat) (kitty : bool) (z : option Z)   (* a widget (of any class of the tree) constructed;
                                                        [None]: the constructor raised *)
-| XDel.
+| XDel
+| XApi (ws : list (nat * wkind)) (now : bool) (imm out : list stok).
+                                         (* the public clear_images(ws..., now=now): what went to the
+                                            terminal device at once, what was put into the output buffer *)
 
 Record tstep := mk_step { ts_act : tact; ts_obs : tobs }.
 Record tcase := mk_case { tc_konsole : bool; tc_ksup : bool; tc_ikon : bool; tc_fuel : nat;
                           tc_next : Z; tc_steps : list tstep }.
 
-Record tstate := mk_tstate { m_scr : scr; m_term : pterm; m_alloc : alloc_st; m_live : list (nat * Z) }.
+(** [m_queue]: written to the screen's output buffer and not flushed yet (clear() and
+    clear_images(now=False) do not flush; draw_screen / start / stop do) *)
+Record tstate := mk_tstate { m_scr : scr; m_term : pterm; m_alloc : alloc_st; m_live : list (nat * Z);
+                             m_queue : list stok;
+                             m_dirty : bool   (* a public clear_images() call since the last write of the screen *) }.
 
 (** *** comparisons *)
 
@@ -122,8 +129,8 @@ Definition alloc_obs (res : option Z) (s : alloc_st) : option alloc_st :=
 
 (** *** one step *)
 
-Definition resync (st : tstate) (o : tobs) (term : pterm) (canv : option nat) : tstate :=
-  mk_tstate (mk_scr (o_cviews o) (o_cdis o) (o_wdis o) canv) term (mk_alloc (o_next o) (o_free o)) (o_live o).
+Definition resync (st : tstate) (o : tobs) (term : pterm) (canv : option nat) (queue : list stok) (dirty : bool) : tstate :=
+  mk_tstate (mk_scr (o_cviews o) (o_cdis o) (o_wdis o) canv) term (mk_alloc (o_next o) (o_free o)) (o_live o) queue dirty.
 
 Definition live_eqb (a b : nat * Z) : bool := Nat.eqb (fst a) (fst b) && Z.eqb (snd a) (snd b).
 Definition live_same (a b : list (nat * Z)) : bool :=
@@ -159,12 +166,12 @@ Definition judge_alloc (st : tstate) (a : tact) (o : tobs) : nat * nat :=
   let spec_ok := z_nodup zs && forallb z_ok zs && freed_live in
   ((if model_ok then 0 else 1), (if spec_ok then 0 else 6)).
 
-Definition judge_screen (c : tcase) (st : tstate) (a : tact) (o : tobs) : nat * nat * pterm * option nat :=
+Definition judge_screen (c : tcase) (st : tstate) (a : tact) (o : tobs) : nat * nat * pterm * option nat * list stok :=
   let k := tc_konsole c in
   let s := m_scr st in
   match a with
   | XDraw cv lay bad raised out truth =>
-    let term' := pexec k (m_term st) out in
+    let term' := pexec k (m_term st) (m_queue st ++ out) in
     let lay_ok := match cv with
                   | Composite _ sh => wf_layout lay && shards_eqb (shards_of lay) sh
                   | Single _ _ _ => true
@@ -191,12 +198,19 @@ Definition judge_screen (c : tcase) (st : tstate) (a : tact) (o : tobs) : nat * 
                                    | Single ci cols rows => positions k [(rows, [CNew (mk_cview 0 0 cols rows ci)])]
                                    end) (o_cviews o)) then 3
       else if raised then 0
+      (* urwid returns early, writing nothing, when handed the very canvas object it drew last
+         (e.g. the cached canvas of an image widget used as the top-most widget): after a public
+         clear_images() call that is not a redraw in the sense of the property (the images stay
+         cleared until a new canvas is drawn) *)
+      else if same && m_dirty st then 0
       else if negb (plcs_subset (t_plcs term') (truth_plcs k truth)) then 4     (* a ghost *)
       else if negb (plcs_subset (truth_plcs k truth) (t_plcs term')) then 5     (* an image line missing *)
       else 0 in
-    (model, spec, term', Some (canvas_id cv))
+    (model, spec, term', Some (canvas_id cv), [])
   | XClear out | XStart out | XStop out =>
-    let term' := pexec k (m_term st) out in
+    (* clear() only queues its output; start / stop flush *)
+    let queued := match a with XClear _ => true | _ => false end in
+    let flushed := pexec k (m_term st) (m_queue st ++ out) in
     let '(mout, s') := match a with
                        | XClear _ => clear_stream (tc_ksup c) s
                        | XStart _ => start_stream (tc_ksup c) [] s
@@ -208,14 +222,25 @@ Definition judge_screen (c : tcase) (st : tstate) (a : tact) (o : tobs) : nat * 
       else if negb (wdis_same (s_wdis s') (o_wdis o)) then 7
       else if negb (views_same (s_prev s') (o_cviews o)) then 5
       else 0 in
-    let spec := if tc_ksup c && negb (match t_plcs term' with [] => true | _ => false end) then 7 else 0 in
-    (model, spec, term', s_canv s)
+    let spec := if tc_ksup c && negb (match t_plcs flushed with [] => true | _ => false end) then 7 else 0 in
+    if queued then (model, spec, m_term st, s_canv s, m_queue st ++ out)
+    else (model, spec, flushed, s_canv s, [])
+  | XApi ws now imm out =>
+    let '(mi, mq, s') := api_clear_images (tc_ksup c) ws now s in
+    let model :=
+      if negb (dels_same (filter is_big_del mi) (filter is_big_del imm)) then 4
+      else if negb (dels_same (filter is_big_del mq) (filter is_big_del out)) then 4
+      else if negb (Nat.eqb (s_cdis s') (o_cdis o)) then 6
+      else if negb (wdis_same (s_wdis s') (o_wdis o)) then 7
+      else if negb (views_same (s_prev s') (o_cviews o)) then 5
+      else 0 in
+    (model, 0, pexec k (m_term st) imm, s_canv s, m_queue st ++ out)
   | XNew _ _ _ | XDel =>
     let model :=
       if negb (Nat.eqb (s_cdis s) (o_cdis o)) then 6
       else if negb (views_same (s_prev s) (o_cviews o)) then 5
       else 0 in
-    (model, 0, m_term st, s_canv s)
+    (model, 0, m_term st, s_canv s, m_queue st)
   end.
 
 Record verdict := mk_verdict { v_mis : option (nat * nat); v_fail : option (nat * nat) }.
@@ -227,16 +252,25 @@ Fixpoint judge_steps (c : tcase) (st : tstate) (i : nat) (steps : list tstep) (v
     let a := ts_act stp in
     let o := ts_obs stp in
     let '(m1, s1) := judge_alloc st a o in
-    let '(m2, s2, term', canv) := judge_screen c st a o in
+    let '(m2, s2, term', canv, queue') := judge_screen c st a o in
     let m := if Nat.eqb m2 0 then (if Nat.eqb m1 0 then 0 else 8) else m2 in
     let s := if Nat.eqb s2 0 then s1 else s2 in
     let v' := mk_verdict (match v_mis v with Some x => Some x | None => if Nat.eqb m 0 then None else Some (i, m) end)
                          (match v_fail v with Some x => Some x | None => if Nat.eqb s 0 then None else Some (i, s) end) in
-    judge_steps c (resync st o term' canv) (S i) rest v'
+    let dirty' := match a with
+                  | XApi _ _ _ _ => true
+                  | XDraw cv _ _ raised _ _ =>
+                    if raised then m_dirty st
+                    else if match s_canv (m_scr st) with Some j => Nat.eqb j (canvas_id cv) | None => false end
+                         then m_dirty st else false
+                  | XClear _ | XStart _ | XStop _ => false
+                  | _ => m_dirty st
+                  end in
+    judge_steps c (resync st o term' canv queue' dirty') (S i) rest v'
   end.
 
 Definition check (c : tcase) : nat :=
-  let st0 := mk_tstate scr_init pterm_init (mk_alloc (tc_next c) []) [] in
+  let st0 := mk_tstate scr_init pterm_init (mk_alloc (tc_next c) []) [] [] false in
   let v := judge_steps c st0 0 (tc_steps c) (mk_verdict None None) in
   match v_fail v, v_mis v with
   | Some (i, r), None => 2 + 10 * r + 1000 * i
